@@ -299,6 +299,25 @@ func c09(args []string) {
 			mode := []string{"omit-output", "wrong-place"}[(k/2)%2]
 			jobs = append(jobs, &job{s: s, exp: exp, f: f, mode: mode, bh: vproto.Behaviours{f.Key: {"fail": mode, "sleep": "10"}}, cfg: Cfg{Buf: 128, Procs: []int{2, 4}[k%2]}, idx: -1})
 		}
+		// the same with two file outputs beside the stream, declared in three different orders (the omitted output is
+		// the first file port by name; the other one must not reach its final path either)
+		orders := [][]spec.PortDecl{{{Name: "astream", Stream: true}, {Name: "bfile"}, {Name: "zfile"}}, {{Name: "bfile"}, {Name: "astream", Stream: true}, {Name: "zfile"}}, {{Name: "zfile"}, {Name: "bfile"}, {Name: "astream", Stream: true}}}
+		s3 := s.Clone()
+		s3.Name = "streamplustwofiles"
+		s3.Proc("PROD").Cmd = spec.BuildCmd("PROD", in, orders[0], nil, nil, nil)
+		s3.Procs = append(s3.Procs, &spec.Proc{Name: "E", Kind: spec.KCmd, Cmd: spec.BuildCmd("E", in, []spec.PortDecl{{Name: "out"}}, nil, nil, nil)})
+		s3.Conns = append(s3.Conns, &spec.Conn{From: "PROD.bfile", To: "E.in"})
+		exp3 := evalRef(s3, nil)
+		if exp3.Err != "" {
+			c.Broken("reference cannot evaluate the stream-plus-two-files shape: " + exp3.Err)
+		}
+		for k := 0; k < c.Pick(6, 18); k++ {
+			sk := s3.Clone()
+			sk.Proc("PROD").Cmd = spec.BuildCmd("PROD", in, orders[k%3], nil, nil, nil)
+			f := exp3.ByProc["PROD"][k%2]
+			mode := []string{"omit-output", "wrong-place"}[(k/3)%2]
+			jobs = append(jobs, &job{s: sk, exp: exp3, f: f, mode: mode, bh: vproto.Behaviours{f.Key: {"fail": mode, "sleep": "10"}}, cfg: Cfg{Buf: 128, Procs: []int{2, 4}[k%2]}, idx: -1})
+		}
 	}
 	// shapes in which the workflow's sink drains a file branch and a parameter branch (RunTo cuts, unconsumed
 	// parameter sources): a task that fails after the parameter stream is long closed must still fail the program
